@@ -5,7 +5,8 @@ import Proofs.ExprScanImage
 Every leaf of the tree the parser builds (a literal, a variable, a property name, a filter name) is the content of
 one of the tokens it was given (`parse_lvAll`: a predicate that holds for all the tokens holds for all the leaves,
 `Expr.lvAll`). The scanner's tokens are well formed (`lex_scanOK`), so the parser's image lies inside
-`Expr.printable` except for the values of float literals (`printable_of_parse`).
+`Expr.printable` as soon as the values of the float literals are printable (`printable_of_parse`), which they
+always are (`lex_floatOK`, `printable_of_parse_all`).
 -/
 
 set_option linter.unusedSimpArgs false
@@ -355,3 +356,7 @@ theorem printable_of_parse (s : Bytes) (e : Expr) (h : parseExprSource s = .ok e
         have := parse_lvAll leafOK toks e' hp hleaf
         exact toks_ok_of_lvAll leafOK (fun _ h => h) (fun _ h => h) (fun _ h => h) (fun _ h => h) e' 0 this
       | _ => simp at h
+
+/-- **the parser's image lies inside `Expr.printable`**: the float hypothesis holds for every source (`lex_floatOK`) -/
+theorem printable_of_parse_all (s : Bytes) (e : Expr) (h : parseExprSource s = .ok e) : e.printable = true :=
+  printable_of_parse s e h (lex_floatOK s)
